@@ -25,11 +25,11 @@ pub fn configs(tier: Tier) -> Vec<Box<dyn Config>> {
     let q = tier == Tier::Quick;
     let mut v = Vec::new();
     if sse2 {
-        v.push(tab(Plan::Zero, if q { 5 } else { 9 }, if q { 7 } else { 12 }, vec![], true, tier, ""));
+        v.push(tab(Plan::Zero, if q { 6 } else { 9 }, if q { 9 } else { 12 }, vec![], true, tier, ""));
         v.push(tab(Plan::Seq, if q { 3 } else { 4 }, if q { 4 } else { 6 }, vec![], true, tier, ""));
         v.push(tab(Plan::Adv(0), 4, 5, vec![], true, tier, ""));
     } else {
-        v.push(tab(Plan::Zero, if q { 5 } else { 8 }, if q { 8 } else { 10 }, vec![], true, tier, ""));
+        v.push(tab(Plan::Zero, if q { 6 } else { 8 }, if q { 9 } else { 11 }, vec![], true, tier, ""));
         v.push(tab(Plan::Cluster(2), if q { 4 } else { 6 }, if q { 5 } else { 8 }, vec![], true, tier, ""));
         v.push(tab(Plan::Adv(0), 4, 5, vec![], true, tier, ""));
     }
